@@ -42,7 +42,13 @@ func generateTokenAtTime(key, userID, actionID string, now time.Time) string {
 		panic("zero length xsrf secret key")
 	}
 	// Round time up and convert to milliseconds.
-	milliTime := (now.UnixNano() + 1e6 - 1) / 1e6
+	// Round up to the millisecond. (Integer division truncates towards
+	// zero, which is not up for times before the Unix epoch.)
+	nanos := now.UnixNano()
+	milliTime := nanos / 1e6
+	if nanos%1e6 > 0 {
+		milliTime++
+	}
 
 	h := hmac.New(sha1.New, []byte(key))
 	fmt.Fprintf(h, "%s:%s:%d", clean(userID), clean(actionID), milliTime)
